@@ -223,11 +223,12 @@ pub fn run(part: &mut Part) {
                 vec![
                     prof("empty x A_full", vec![seed_empty()], a_full(), if q { 4 } else { 5 }),
                     prof("structural seeds x A_full", structural_seeds(), a_full(), if q { 3 } else { 4 }),
+                    prof("big-buffer seeds x A_full", vec![seed_big_buffer(QA), seed_big_buffer(QB)], a_full(), if q { 2 } else { 3 }),
                 ]
             } else {
-                let mut s = vec![seed_empty()];
+                let mut s = vec![seed_empty(), seed_big_buffer(QA)];
                 s.extend(structural_seeds());
-                vec![prof("empty+structural x A_full", s, a_full(), if q { 1 } else { 2 })]
+                vec![prof("empty+structural+big-buffer x A_full", s, a_full(), if q { 1 } else { 2 })]
             };
             let mon = Monitors { property: "C16", c16: true, ..Default::default() };
             run_seq(part, profiles, vec![mon]);
@@ -306,6 +307,10 @@ pub fn run(part: &mut Part) {
                 batch(QA, vec![Sz::L, Sz::S3, Sz::L, Sz::S1]),
                 batch(QA, vec![Sz::S5, Sz::XL, Sz::S3]),
                 batch(QB, vec![Sz::S3, Sz::S3]),
+                // from a block start: first frame = entry header + record 0, middle frame = record 1
+                // exactly, last frame = record 2 (sub-record boundaries coincide with frame ends)
+                batch(QA, vec![Sz::N((BLOCK - 31) as u32), Sz::N((BLOCK - 19) as u32), Sz::S3]),
+                batch(QA, vec![Sz::N((BLOCK - 31) as u32), Sz::N((BLOCK - 19) as u32), Sz::N((BLOCK - 19) as u32), Sz::N((BLOCK - 19) as u32), Sz::S1]),
                 Op::Trunc { q: QA, at: Tr::First },
                 Op::Trunc { q: QA, at: Tr::Mid },
                 Op::app(QA, Pos::Auto, Sz::S3),
@@ -506,7 +511,136 @@ pub fn run(part: &mut Part) {
     }
 }
 
+fn monitors_for(property: &str, policy: PolicyCfg, hash_seed: u64) -> Option<Monitors> {
+    let base = Monitors { policy: Some(policy), hash_seed, ..Default::default() };
+    Some(match property {
+        "C01" => Monitors { property: "C01", conformance: true, reopen_state: true, final_reopen: true, final_appends: true, ..base },
+        "C04" => Monitors { property: "C04", c04: true, final_reopen: true, final_appends: true, ..base },
+        "C05" => Monitors { property: "C05", conformance: true, accessors: true, ..base },
+        "C06" => Monitors { property: "C06", c06: true, ..base },
+        "C07" => Monitors { property: "C07", conformance: true, reopen_state: true, final_reopen: true, ..base },
+        "C13" => Monitors { property: "C13", c13: true, ..base },
+        "C15" => Monitors { property: "C15", c15: true, ..base },
+        "C16" => Monitors { property: "C16", c16: true, ..base },
+        _ => return None,
+    })
+}
+
+/// Re-executes one recorded case (a replay file written on violation) without the explorer.
 pub fn replay(path: &str) -> i32 {
-    eprintln!("replay not implemented yet: {}", path);
-    2
+    use crate::crash::{crash_leaf, CrashCfg, Oracle};
+    let text = match std::fs::read_to_string(path) {
+        Ok(t) => t,
+        Err(e) => {
+            eprintln!("cannot read {}: {}", path, e);
+            return 2;
+        }
+    };
+    let case: serde_json::Value = serde_json::from_str(&text).expect("replay file must be JSON");
+    let property = case["property"].as_str().unwrap_or("").to_string();
+    let engine = case["engine"].as_str().unwrap_or("").to_string();
+    println!("replaying {} case of engine '{}' recorded as: {}", property, engine, case["what"].as_str().unwrap_or(""));
+    let mut env = Env::new();
+    let seed_ops: Vec<Op> = serde_json::from_value(case["seed_ops"].clone()).unwrap_or_default();
+    let ops: Vec<Op> = serde_json::from_value(case["ops"].clone()).unwrap_or_default();
+    let seed = Seed { name: case["seed_name"].as_str().unwrap_or("replay").to_string(), ops: seed_ops, predicted_cursor: None };
+    let idx: Vec<usize> = (0..ops.len()).collect();
+    let leaf = Leaf { seed: &seed, seed_idx: 0, idx: &idx, ops: ops.iter().collect(), heavy_from: 0, heavy_seed: true };
+    let policy: PolicyCfg = serde_json::from_value(case["policy"].clone()).unwrap_or(PolicyCfg::Default);
+    let hash_seed = case["hash_seed"].as_u64().unwrap_or(0);
+    match engine.as_str() {
+        "seq" => match monitors_for(&property, policy, hash_seed) {
+            Some(mon) => run_leaf(&mut env, &leaf, &mon),
+            None => {
+                eprintln!("no sequential monitor for {}", property);
+                return 2;
+            }
+        },
+        "crash" => {
+            let oracle = match case["oracle"].as_str().unwrap_or("") {
+                "C03" => Oracle::C03,
+                "C12" => Oracle::C12,
+                "C04" => Oracle::C04,
+                _ => Oracle::C02,
+            };
+            let prop: &'static str = match property.as_str() { "C03" => "C03", "C12" => "C12", "C04" => "C04", _ => "C02" };
+            let cfg = CrashCfg { property: prop, oracle, policy, hash_seed, power_loss: case["power_loss"].as_bool().unwrap_or(false), second_crash: oracle == Oracle::C02, cont_struct: if matches!(oracle, Oracle::C02 | Oracle::C04) { 2 } else { 0 }, cont_other: if matches!(oracle, Oracle::C02 | Oracle::C04) { 2 } else { 0 }, initial_open: true };
+            crash_leaf(&mut env, &leaf, &cfg);
+        }
+        "damage" => match property.as_str() {
+            "C08" => crate::damage::c08_leaf(&mut env, &leaf),
+            "C09" => crate::damage::c09_leaf(&mut env, &leaf),
+            "C12" => crate::damage::c12_damage_leaf(&mut env, &leaf),
+            _ => crate::damage::c10_inplace_leaf(&mut env, &leaf),
+        },
+        "damage-structural" => {
+            let sops: Vec<crate::damage::SOp> = serde_json::from_value(case["damage_ops"].clone()).unwrap_or_default();
+            if let Some(d) = crate::damage::build_image(&mut env, &leaf) {
+                let mut img = d.image.clone();
+                for op in &sops {
+                    crate::damage::apply_sop(&mut img, op);
+                }
+                let dir = env.scratch2.path.clone();
+                crate::damage::c10_eval(&mut env, &dir, &img, || case.clone());
+            }
+        }
+        "damage-crafted" => {
+            let names: Vec<String> = serde_json::from_value(case["entries"].clone()).unwrap_or_default();
+            let all = crate::damage::crafted_entries();
+            let mut file = vec![0u8; FILE];
+            let mut cur = 0usize;
+            for n in &names {
+                if let Some((_, e)) = all.iter().find(|(k, _)| k == n) {
+                    let fr = crate::damage::crc_frame(1, e);
+                    if BLOCK - cur % BLOCK < fr.len() {
+                        cur = (cur / BLOCK + 1) * BLOCK;
+                    }
+                    file[cur..cur + fr.len()].copy_from_slice(&fr);
+                    cur += fr.len();
+                }
+            }
+            let mut img = crate::crash::Image::new();
+            img.insert(crate::exec::wal_name(0), file);
+            let dir = env.scratch2.path.clone();
+            crate::damage::c10_eval(&mut env, &dir, &img, || case.clone());
+        }
+        "fault" => crate::fault::fault_leaf(&mut env, &leaf, case["damaged_block"].as_bool().unwrap_or(false)),
+        "c14" => c14_leaf(&mut env, &leaf),
+        "c18" => c18_leaf(&mut env, &leaf),
+        "c17" => c17_leaf(&mut env, &leaf, if case["variant"] == "numbering-gaps" { 1 } else { 0 }),
+        "frame" => {
+            let g = |k: &str| case[k].as_u64().map(|v| v as usize);
+            let mut entries: Vec<Vec<u8>> = vec![];
+            let start = g("start_offset").unwrap_or(0);
+            if start >= 7 {
+                entries.push((0..start - 7).map(|i| ((9 * 53 + i * 7) % 251 + 1) as u8).collect());
+            }
+            for (tag, k) in [(1usize, "entry_len"), (2, "follower_len"), (3, "second_follower_len")] {
+                if let Some(len) = g(k) {
+                    entries.push((0..len).map(|i| ((tag * 53 + i * 7) % 251 + 1) as u8).collect());
+                }
+            }
+            match guarded(|| crate::frame::round_trip(&entries)) {
+                Ok(Ok(_)) => println!("round trip ok"),
+                Ok(Err(e)) | Err(e) => {
+                    println!("REPRODUCED: {}", e);
+                    return 1;
+                }
+            }
+            return 0;
+        }
+        other => {
+            eprintln!("unknown engine '{}' in replay file", other);
+            return 2;
+        }
+    }
+    if env.stats.violations.is_empty() {
+        println!("no violation on this case with the current tree ({} evaluations, {} diverged)", env.stats.evaluations, env.stats.diverged);
+        0
+    } else {
+        for v in &env.stats.violations {
+            println!("REPRODUCED property={} signature={}\n  {}\n  case: {}", v.property, v.signature, v.what, v.case);
+        }
+        1
+    }
 }
